@@ -120,6 +120,11 @@ theorem fact_C02_nonEVM_chain : Generated.anteChainNonEVM =
      "authante.NewSigVerificationDecorator", "authante.NewIncrementSequenceDecorator", "ibcante.NewRedundantRelayDecorator",
      "ante.AnteDecoratorGasWanted"] := by decide
 
+/-- the signer of a MsgEthereumTx is derived from its signature only: GetSigners / GetSender never READ the unauthenticated
+    wire field `From` (the model's `Msg.signer (.eth s) = s` with `s` the recovered address rests on this) -/
+theorem fact_C02_eth_signer_is_recovered :
+    Generated.ethTxSignerReadsOfFrom = [] ∧ Generated.ethTxGetSignersReturns = ["[]sdk.AccAddress{signer}"] := by decide
+
 /-- only the Ethereum extension option selects the EVM chain; every other extension option is rejected -/
 theorem fact_C02_extension_routing : Generated.anteExtensionRouting =
     ["\"/eth.evm.v1.ExtensionOptionsEthereumTx\"=>evm-chain", "default=>reject"] := by decide
